@@ -218,4 +218,22 @@ PROPS = {
         'technique': 'Coq proof (embedding of the pattern path into the event pairs; induction on fuel and pair lists) + invariant over add/remove histories + differential replay against the real index and matcher',
         'assumptions': ['sequential histories', 'JSON fragment without non-integral numbers'],
     },
+    'C04': {
+        'props_file': 'props/C04.v',
+        'domains': [{'name': 'loc-events', 'quick': 400, 'thorough': 20000, 'thorough_shards': 10}],
+        'spec_ops': ['process'],
+        'corr': 'corr.loc (CorrLoc.check_loc) on the events profile: Location.ProcessEvent replayed through Events.process_event; judge CorrLoc.spec_process = spec_execs over index-free dispatch and denotational conditions',
+        'rule': 'loc-events: histories of 20-45 ops on 1-2 locations: rules with when-patterns derived from an event pool (array variables give several when-bindings), a condition query in half of them '
+                '(patterns over stored facts, code terms), 1-3 actions from the script template family (mostly the echo action that returns its visible variables x y z w ruleId location event; constants; throw; syntax error), '
+                'serialActions in 1 of 5; 40% ProcessEvent on pool events (1 in 25 a trigger! event); the executed leaves of the work tree (rule, action, bindings, completion, value) and the values list are observed; '
+                'non-trivial = at least 3 distinct (op, outcome) kinds; distinct by hash of inputs',
+        'level_text': 'Coq theorems over the executable model of core/events.go: fanout_exact / process_event_exact (for every system in which search is pure and every list of dispatched non-serial rules whose conditions evaluate: the walk executes exactly '
+                      'spec_execs - each (rule, action, bindings) exactly once, results = the script on exactly those bindings, values = the completed results), inject_spec, run_actions_concurrent, failure_is_local, serial_stops_at_first_failure, '
+                      'values_report_ok_results, find_children_full_agrees, oneshot_removed_after_run. Tie to the code: ProcessEvent histories replayed through the extracted model and judged by the extracted specification.',
+        'level_note': 'Partial: the model is sequential - the actions of one rule run concurrently in the code; the data race / crash on the shared bindings map found by this check (D31) was repaired in /repo (fix: commit), '
+                      'other interleaving effects of actions with side effects are outside the model (template actions are pure). A failing CONDITION or serial action stops the whole walk (remaining rules unevaluated, in Go map order): such outcomes are flagged ambiguous when more than one rule was dispatched.',
+        'technique': 'Coq proof of fan-out exactness against a specification of the execution multiset (using the C03 refinement for conditions) + differential replay of ProcessEvent work trees',
+        'assumptions': ['template actions are pure (no side effects on the location)', 'fact search is pure during the walk'],
+        'partial': 'concurrency of actions is outside the sequential model',
+    },
 }
